@@ -4,7 +4,10 @@ import TypstyleModel.Model.Doc
 `Doc.bound` (a width from which no group breaks for width).  Soundness theorems are in `Proofs/`. -/
 namespace Pretty
 
-def isLC (s : String) : Bool := s.startsWith "//"
+/-- A text atom that may open a line comment: it starts with `//` and is not known (by its ghost
+tag) to be literal or prose text — a line of a raw block that starts with `//` is raw text. For an
+untagged document (the implementation's) every `//` text counts. -/
+def isLC (s : String) (t : Tag) : Bool := s.startsWith "//" && !(t == .lit || t == .plit || t == .prose)
 def isBlank (s : String) : Bool := s.all Char.isWhitespace
 
 /-- The "open line comment" automaton over a layout. `none`: some non-blank text follows an
@@ -12,10 +15,10 @@ open line comment on the same line; `some o`: final state. -/
 def run : Bool → List Atom → Option Bool
   | o, [] => some o
   | _, .nl _ :: r => run false r
-  | o, .txt s _ :: r =>
+  | o, .txt s t :: r =>
     if isBlank s then run o r
     else if o then none
-    else run (isLC s) r
+    else run (isLC s t) r
 
 /-- Abstract outcome set for one start state. -/
 structure Out where
@@ -41,10 +44,10 @@ def Summ.seq (f g : Summ) : Summ := fun o =>
 
 def summ : Mode → Doc → Summ
   | _, .nil => fun o => if o then ⟨false, false, true⟩ else ⟨false, true, false⟩
-  | _, .text s _ _ => fun o =>
+  | _, .text s _ t => fun o =>
     if isBlank s then (if o then ⟨false, false, true⟩ else ⟨false, true, false⟩)
     else if o then ⟨true, false, false⟩
-    else if isLC s then ⟨false, false, true⟩ else ⟨false, true, false⟩
+    else if isLC s t then ⟨false, false, true⟩ else ⟨false, true, false⟩
   | .brk, .hardline => fun _ => ⟨false, true, false⟩
   | .flat, .hardline => fun _ => Out.empty
   | m, .append a b => (summ m a).seq (summ m b)
